@@ -953,7 +953,7 @@ EC_ASSUMPTIONS = ['cache layer: environ keys under ombott.* / route.* are the fr
                   'recorded graphs of the real functions; SimpleCookie through the tokeniser model of C15']
 
 
-def install(cls, quick=(500, 350), thorough=(20000, 8000)):
+def install(cls, quick=(500, 350), thorough=(12000, 5000)):
     """adds the cache-layer stream to check class `cls`: table, anchors, correspondence, oracle, replay"""
     pid = cls.pid
     cls.tables = list(cls.tables) + ['envcache']
